@@ -262,6 +262,16 @@ func runC17(seed int64, tier string, out string) {
 				colsSQL[i] = c.sql
 			}
 			sql := "SELECT " + strings.Join(colsSQL, ", ") + ", " + fnsql + " OVER (" + over + ") FROM t"
+			// sometimes the query has its own ORDER BY (often on the column the analytic clause sorted by):
+			// the sort values cached by the analytic function must follow the rows
+			outer := "[]"
+			if len(sortable) > 0 && !strict && r.Intn(3) == 0 {
+				oc := cols[sortable[r.Intn(len(sortable))]]
+				d := [][2]string{{"", "Asc"}, {" DESC", "Desc"}}[r.Intn(2)]
+				sql += " ORDER BY " + oc.sql + d[0] + ", t.c1"
+				outer = fmt.Sprintf("[mkO (OSel %d) %s None; mkO (OSel 0) Asc None]", oc.idx, d[1])
+				shape += "+order-by"
+			}
 			tx.Flags.SetCPU(cpu)
 			tx.Flags.SetStrictEqual(strict)
 			view, err := selectView(tx, sql)
@@ -280,7 +290,7 @@ func runC17(seed int64, tier string, out string) {
 					show = fmt.Sprintf("%d rows, first: %v", len(rows), showValRows(rows[:3]))
 				}
 			}
-			cases = append(cases, fmt.Sprintf("mkA %s %s %s %s (mkAC %s %s %s) %s", coqN(id), coqBool(strict), t.coq, fncoq, coqList(pcoq), coqList(ocoq), fcoq, obs))
+			cases = append(cases, fmt.Sprintf("mkA %s %s %s %s (mkAC %s %s %s) %s %s", coqN(id), coqBool(strict), t.coq, fncoq, coqList(pcoq), coqList(ocoq), fcoq, outer, obs))
 			tbl := interface{}(showCellRows(t.rows))
 			if len(t.rows) > 16 {
 				tbl = fmt.Sprintf("%d rows (definition %s in the shard)", len(t.rows), t.coq)
